@@ -35,7 +35,7 @@
 //   - Dialer: a gate for dial functions.  Await posts a "Dial" op and blocks until the
 //     controller completes it (or the dial context ends, which it honours like net.Dialer).
 //
-// Event lines (Event = map): "n" sequence number, "ev" name, "conn" conn name, "ms" real
+// Event lines (Event = map): "seq" sequence number, "ev" name, "conn" conn name, "ms" real
 // milliseconds since the recorder was created (diagnostics and generous bounds only), plus
 //
 //	ConnWrite{len, dead}  ConnRead{dead}  SetReadDeadline{kind, dur_ms, dead}  SetDeadline{..}
@@ -80,7 +80,7 @@ func (r *Recorder) logLocked(ev string, kv ...any) int {
 	if r.Off {
 		return r.seq
 	}
-	e := Event{"n": r.seq, "ev": ev, "ms": float64(time.Since(r.t0).Microseconds()) / 1000}
+	e := Event{"seq": r.seq, "ev": ev, "ms": float64(time.Since(r.t0).Microseconds()) / 1000}
 	for i := 0; i+1 < len(kv); i += 2 {
 		e[kv[i].(string)] = kv[i+1]
 	}
